@@ -103,6 +103,16 @@ func genCase(r *hx.Rand) (cfgT, reqT) {
 	switch r.Intn(10) {
 	case 0, 1, 2, 3, 4:
 		peer = hx.Pick(r, trustedIPs)
+		// make the peer really trusted under this configuration most of the time
+		cc := c
+		for _, s := range cc.Cidrs {
+			if _, n, err := net.ParseCIDR(s); err == nil {
+				cc.nets = append(cc.nets, n)
+			}
+		}
+		for k := 0; k < 8 && !cc.trusted(peer); k++ {
+			peer = hx.Pick(r, trustedIPs)
+		}
 	case 5, 6, 7:
 		peer = hx.Pick(r, untrustedIPs)
 	case 8:
@@ -248,23 +258,30 @@ func emit(id string, c cfgT, q reqT, st *hx.Stats) string {
 	peer := peerOf(q.Remote)
 	l := hx.NewLine(id).Nat(mh).Str(peer).Bool(c.trusted(peer)).Nat(len(headers))
 	nontrivial := false
+	// the `net` table: every candidate item of every configured header, classified for real
+	tbl := map[string]bool{}
+	var order []string
+	add := func(item string) {
+		if item != "" && !tbl[item] {
+			tbl[item] = true
+			order = append(order, item)
+		}
+	}
 	for _, h := range headers {
 		v := q.Hdr[h]
 		if h == "X-Forwarded-For" {
+			l.Tok("X").Str(v)
 			parts := splitTrim(v)
-			l.Tok("X").Nat(len(parts))
 			sawT, sawU, sawBad := false, false, false
 			for _, p := range parts {
+				add(p)
 				if ip, ok := parseOne(p); ok {
-					t := c.trusted(ip)
-					l.Bool(true).Str(ip).Bool(t)
-					if t {
+					if c.trusted(ip) {
 						sawT = true
 					} else {
 						sawU = true
 					}
 				} else {
-					l.Bool(false)
 					sawBad = true
 				}
 			}
@@ -272,15 +289,20 @@ func emit(id string, c cfgT, q reqT, st *hx.Stats) string {
 				nontrivial = true
 			}
 		} else {
-			l.Tok("S")
-			if ip, ok := parseOne(v); ok {
-				l.Bool(true).Str(ip)
-			} else {
-				l.Bool(false)
-				if v != "" {
-					nontrivial = true
-				}
+			l.Tok("S").Str(v)
+			add(strings.TrimSpace(v))
+			if _, ok := parseOne(v); !ok && v != "" {
+				nontrivial = true
 			}
+		}
+	}
+	l.Nat(len(order))
+	for _, item := range order {
+		l.Str(item)
+		if ip, ok := parseOne(item); ok {
+			l.Bool(true).Str(ip).Bool(c.trusted(ip))
+		} else {
+			l.Bool(false)
 		}
 	}
 	res, ok := observe(c, q)
